@@ -88,7 +88,7 @@ theorem c10_trim_gate_partial (st : RState) (t : Nat) (r : String) (hrec : AllRe
   obtain ⟨h1, h2, h3, h4⟩ := c10_trim_gate st t r h
   unfold gateOK
   simp only [decide_eq_true_eq, Bool.and_eq_true, Bool.or_eq_true, List.all_eq_true, Bool.decide_and, Bool.decide_or]
-  refine ⟨⟨⟨h1, h2⟩, h3⟩, ?_⟩
+  refine ⟨h1, h2, h3, ?_⟩
   by_cases hr : st.role = 2
   · right
     intro n hn
@@ -141,44 +141,42 @@ theorem filterLoop_bounds (req : Req) (l out : List Row) (next : Nat)
 
 /-- what `readLocalCommitted` guarantees about the request it hands to the adapter -/
 theorem clampReq_spec (req r' : Req) (committed floor : Nat) (h : clampReq req committed floor = .inl r') :
-    r'.minSeq ≥ nextSeq floor ∧ r'.reverse = req.reverse ∧ r'.maxSeq ≤ committed ∧
-    (r'.maxSeq = 0 → committed = 0) ∧ r'.fromSeq ≤ committed ∧ (req.reverse = false → r'.fromSeq = req.fromSeq) := by
+    r'.minSeq ≥ nextSeq floor ∧ 0 < r'.maxSeq ∧ r'.maxSeq ≤ committed := by
   unfold clampReq at h
   dsimp only at h
-  by_cases hm : req.maxSeq = 0 ∨ req.maxSeq > committed
-  · simp only [hm, if_true] at h
-    split at h
-    · cases h
-    · split at h
-      · rename_i h1 h2
-        cases h
-        refine ⟨Nat.le_max_right _ _, rfl, Nat.le_refl _, fun h => h, Nat.le_refl _, ?_⟩
-        intro hr; simp [hr] at h2
-      · rename_i h1 h2
-        cases h
-        refine ⟨Nat.le_max_right _ _, rfl, Nat.le_refl _, fun h => h, ?_, fun _ => rfl⟩
-        cases hr : req.reverse <;> simp [hr] at h1 h2 <;> omega
-  · simp only [hm, if_false] at h
-    have hm' : req.maxSeq ≠ 0 ∧ req.maxSeq ≤ committed := by omega
-    split at h
-    · cases h
-    · split at h
-      · rename_i h1 h2
-        cases h
-        refine ⟨Nat.le_max_right _ _, rfl, hm'.2, fun h => absurd h hm'.1, Nat.le_refl _, ?_⟩
-        intro hr; simp [hr] at h2
-      · rename_i h1 h2
-        cases h
-        refine ⟨Nat.le_max_right _ _, rfl, hm'.2, fun h => absurd h hm'.1, ?_, fun _ => rfl⟩
-        cases hr : req.reverse <;> simp [hr] at h1 h2 <;> omega
+  by_cases h1 : req.reverse = false ∧ req.fromSeq > committed
+  · rw [if_pos h1] at h; cases h
+  · rw [if_neg h1] at h
+    by_cases h2 : committed = 0
+    · rw [if_pos h2] at h; cases h
+    · rw [if_neg h2] at h
+      cases h
+      dsimp only
+      refine ⟨Nat.le_max_right _ _, ?_, ?_⟩
+      · by_cases hm : req.maxSeq = 0 ∨ req.maxSeq > committed
+        · rw [if_pos hm]; omega
+        · rw [if_neg hm]; omega
+      · by_cases hm : req.maxSeq = 0 ∨ req.maxSeq > committed
+        · rw [if_pos hm]; omega
+        · rw [if_neg hm]; omega
+
+theorem clampReq_inr (req : Req) (r0 : RRes) (committed floor : Nat) (h : clampReq req committed floor = .inr r0) :
+    r0.msgs = [] := by
+  unfold clampReq at h
+  dsimp only at h
+  by_cases h1 : req.reverse = false ∧ req.fromSeq > committed
+  · rw [if_pos h1] at h; cases h; rfl
+  · rw [if_neg h1] at h
+    by_cases h2 : committed = 0
+    · rw [if_pos h2] at h; cases h; rfl
+    · rw [if_neg h2] at h; cases h
 
 /-- **c10_read_bounds**: whatever `FromSeq/MaxSeq/MinSeq/Limit/MaxBytes` are
-    (0 and 2^64-1 included), forward or reverse, every message `readLocalCommitted`
-    returns lies strictly above the logical retention floor and at or below the
-    committed frontier — provided a forward request starts at `FromSeq ≥ 1`
-    (all in-repo callers; see the counterexample for `FromSeq = 0`). -/
+    (0 and 2^64-1 included), forward, reverse or "latest", with HW = 0 or not,
+    single-node (`minISR ≤ 1 ⇒ committed = LEO`) or replicated, every message
+    `readLocalCommitted` returns lies strictly above the logical retention floor
+    and at or below the committed frontier. -/
 theorem c10_read_bounds (ch ch' : Chan) (req : Req) (rts minISR : Nat) (r : RRes)
-    (hfrom : req.reverse = true ∨ req.fromSeq ≥ 1)
     (hfloor : Nat.max rts (localRet (loadLEO ch).2) < maxU64)
     (h : readLocal ch req rts minISR = (ch', .ok r)) :
     ∀ m ∈ r.msgs, Nat.max rts (localRet (loadLEO ch).2) < m.seq ∧
@@ -191,24 +189,24 @@ theorem c10_read_bounds (ch ch' : Chan) (req : Req) (rts minISR : Nat) (r : RRes
   | inr r0 =>
     rw [hcl] at h
     simp only [Prod.mk.injEq, Except.ok.injEq] at h
-    unfold clampReq at hcl
-    dsimp only at hcl
-    split at hcl
-    · cases hcl; rw [← h.2]; intro m hm; cases hm
-    · split at hcl <;> cases hcl
+    rw [← h.2, clampReq_inr req r0 committed floor hcl]
+    intro m hm; cases hm
   | inl r' =>
     rw [hcl] at h
-    obtain ⟨hmin, hrev, hmax, hmax0, hfromc, hfwd⟩ := clampReq_spec req r' committed floor hcl
+    obtain ⟨hmin, hmaxpos, hmax⟩ := clampReq_spec req r' committed floor hcl
     have hns : nextSeq floor = floor + 1 := by unfold nextSeq; rw [if_neg (Nat.ne_of_lt hfloor)]
     have hminpos : r'.minSeq > 0 := by omega
     unfold adapterRead at h
     dsimp only at h
-    split at h
-    · simp only [Prod.mk.injEq, Except.ok.injEq] at h; rw [← h.2]; intro m hm; cases hm
-    · split at h
-      · simp only [Prod.mk.injEq, Except.ok.injEq] at h; rw [← h.2]; intro m hm; cases hm
-      · rename_i hA hB
-        -- the list was read; all that matters is the filter loop
+    by_cases hA : r'.reverse = true ∧ r'.minSeq > 0 ∧
+        (if (!r'.reverse) = true ∧ r'.minSeq > 0 ∧ r'.fromSeq < r'.minSeq then r'.minSeq else r'.fromSeq) < r'.minSeq
+    · rw [if_pos hA] at h
+      simp only [Prod.mk.injEq, Except.ok.injEq] at h; rw [← h.2]; intro m hm; cases hm
+    · rw [if_neg hA] at h
+      by_cases hB : (!r'.reverse) = true ∧ r'.maxSeq > 0 ∧ r'.minSeq > 0 ∧ r'.maxSeq < r'.minSeq
+      · rw [if_pos hB] at h
+        simp only [Prod.mk.injEq, Except.ok.injEq] at h; rw [← h.2]; intro m hm; cases hm
+      · rw [if_neg hB] at h
         generalize listBySeq (loadLEO ch).2
           (if (!r'.reverse) = true ∧ r'.minSeq > 0 ∧ r'.fromSeq < r'.minSeq then r'.minSeq else r'.fromSeq)
           r'.limit r'.maxBytes r'.reverse = lr at h
@@ -221,36 +219,22 @@ theorem c10_read_bounds (ch ch' : Chan) (req : Req) (rts minISR : Nat) (r : RRes
           intro m hm
           have hb := filterLoop_bounds r' msgs [] _ (by intro m hm; cases hm) m hm
           have hlo := hb.1 hminpos
-          by_cases hz : r'.maxSeq = 0
-          · -- committed = 0: the early returns must have fired
-            exfalso
-            have hc0 := hmax0 hz
-            have hf0 : r'.fromSeq = 0 := by omega
-            cases hr : r'.reverse with
-            | true =>
-              apply hA
-              simp [hr, hf0]; omega
-            | false =>
-              rw [hrev] at hr
-              have := hfwd hr
-              rcases hfrom with h1 | h1
-              · rw [hr] at h1; cases h1
-              · omega
-          · have hhi := hb.2 (by omega)
-            omega
+          have hhi := hb.2 hmaxpos
+          omega
 
--- non-vacuity: a reverse "latest" read over a store with an uncommitted tail and a retention floor
-example : (readLocal { rows := (List.range 6).map (fun i => mkRow (i + 1) ⟨i + 1, [], [], [1], 1⟩),
-                       ck := some ⟨0, 0, 4⟩, ret := some ⟨2, 0, 6⟩ }
-            ⟨maxU64, maxU64, 0, 10, 0, true⟩ 0 2).2 = .ok ⟨[mkRow 4 ⟨4, [], [], [1], 1⟩, mkRow 3 ⟨3, [], [], [1], 1⟩], 2⟩ := by
+def okSeqs : Except Err RRes → Option (List Nat × Nat)
+  | .ok r => some (r.msgs.map (·.seq), r.next)
+  | .error _ => none
+
+-- non-vacuity: a reverse "latest" read over a store with an uncommitted tail (5, 6) and a retention floor (2)
+example : okSeqs (readLocal { rows := (List.range 6).map (fun i => mkRow (i + 1) ⟨i + 1, [], [], [1], 1⟩),
+                              ck := some ⟨0, 0, 4⟩, ret := some ⟨2, 0, 6⟩ }
+            ⟨maxU64, maxU64, 0, 10, 0, true⟩ 0 2).2 = some ([4, 3], 2) := by
   decide +kernel
 
-/-- the guard `FromSeq ≥ 1` is needed: with nothing committed a forward read from 0 returns the uncommitted tail -/
-theorem c10_read_from_zero_counterexample :
-    ∃ (ch : Chan) (req : Req) (r : RRes), req.reverse = false ∧ req.fromSeq = 0 ∧
-      (readLocal ch req 0 2).2 = .ok r ∧ committedOf (loadLEO ch).1 (loadLEO ch).2.ck 2 = 0 ∧ r.msgs ≠ [] :=
-  ⟨{ rows := [mkRow 1 ⟨7, [], [], [1], 1⟩] }, ⟨0, 0, 0, 0, 0, false⟩, ⟨[mkRow 1 ⟨7, [], [], [1], 1⟩], 2⟩,
-   rfl, rfl, by decide +kernel, by decide +kernel, by simp⟩
+-- the repaired corner: nothing committed, forward read from sequence 0 returns nothing
+example : okSeqs (readLocal { rows := [mkRow 1 ⟨7, [], [], [1], 1⟩] } ⟨0, 0, 0, 0, 0, false⟩ 0 2).2 = some ([], 0) := by
+  decide +kernel
 
 /-! ### no barrier record in a sync page -/
 
@@ -276,76 +260,105 @@ theorem c10_no_barrier (q : Query) (limit : Nat) (sync : List Nat) (read : RRes)
       · exact base x (List.mem_filter.mp hx).1
       · exact base x hx
   apply sub m
-  split at hm
-  · have hm' := List.mem_reverse.mp hm
-    split at hm'
-    · exact List.mem_of_mem_take hm'
-    · exact hm'
-  · split at hm
-    · exact List.mem_of_mem_take hm
-    · exact hm
+  generalize (if q.mode = 0 ∧ q.end_ > 0 then
+        (read.msgs.filter (fun m => !sync.contains m.seq)).filter (fun m => !decide (m.seq ≤ q.end_))
+      else if q.mode = 1 ∧ q.end_ > 0 then
+        (read.msgs.filter (fun m => !sync.contains m.seq)).filter (fun m => !decide (m.seq ≥ q.end_))
+      else read.msgs.filter (fun m => !sync.contains m.seq)) = L at hm ⊢
+  have hin : ∀ x, x ∈ (if L.length > limit then L.take limit else L) → x ∈ L := by
+    intro x hx
+    split at hx
+    · exact List.mem_of_mem_take hx
+    · exact hx
+  by_cases hr : q.reverse = true
+  · rw [if_pos hr] at hm
+    exact hin m (List.mem_reverse.mp hm)
+  · rw [if_neg hr] at hm
+    exact hin m hm
 
 example : (syncPage ⟨0, 0, 0, 5, 0⟩ 5 [2] ⟨[mkRow 3 ⟨3, [], [], [1], 1⟩, mkRow 2 ⟨2, [], [], [1], 1⟩, mkRow 1 ⟨1, [], [], [1], 1⟩], 0⟩).1.map (·.seq) = [1, 3] := by
   decide +kernel
 
 /-! ### the retention boundary never moves backwards; physical ≤ logical -/
 
-/-- **c10_floor_mono** (adopt): adopting ANY boundary, also a smaller one, never lowers the logical or physical boundary -/
+theorem loadLEO_ret (ch : Chan) : (loadLEO ch).2.ret = ch.ret := by
+  unfold loadLEO; cases ch.leoC <;> rfl
+
+theorem bumpLeo_ret (ch : Chan) (m : Nat) : (bumpLeo ch m).ret = ch.ret := by
+  unfold bumpLeo
+  cases ch.leoC with
+  | none => rfl
+  | some l => dsimp only; split <;> rfl
+
+/-- **c10_floor_mono** (adopt): adopting ANY boundary — also a smaller one, in any
+    order — never lowers the logical or the physical boundary. -/
 theorem c10_floor_mono_adopt (ch : Chan) (through : Nat) :
-    (retOrZero ch).loc ≤ (retOrZero (adopt ch through).1).loc ∧ (retOrZero ch).phys ≤ (retOrZero (adopt ch through).1).phys := by
+    (retOrZero ch).loc ≤ (retOrZero (adopt ch through).1).loc ∧
+    (retOrZero ch).phys ≤ (retOrZero (adopt ch through).1).phys := by
   unfold adopt
-  split
-  · exact ⟨Nat.le_refl _, Nat.le_refl _⟩
-  · have hret : ∀ c : Chan, (loadLEO c).2.ret = c.ret := by
-      intro c; unfold loadLEO; cases c.leoC <;> rfl
-    have hz : retOrZero (loadLEO ch).2 = retOrZero ch := by unfold retOrZero; rw [hret]
+  by_cases h0 : through = 0
+  · rw [if_pos h0]; exact ⟨Nat.le_refl _, Nat.le_refl _⟩
+  · rw [if_neg h0]
+    have hz : retOrZero (loadLEO ch).2 = retOrZero ch := by unfold retOrZero; rw [loadLEO_ret]
+    have : (retOrZero (bumpLeo { (loadLEO ch).2 with ret := some (adoptRet (retOrZero (loadLEO ch).2) (loadLEO ch).1 through) }
+        (adoptRet (retOrZero (loadLEO ch).2) (loadLEO ch).1 through).max)) =
+        adoptRet (retOrZero ch) (loadLEO ch).1 through := by
+      simp only [retOrZero, bumpLeo_ret, loadLEO_ret]
     dsimp only
-    rw [hz]
-    have key : ∀ c : Chan, (c.ret = some ⟨Nat.max (retOrZero ch).loc through, (retOrZero ch).phys,
-          Nat.max (retOrZero ch).max (Nat.max (loadLEO ch).1 through)⟩) →
-        (retOrZero ch).loc ≤ (retOrZero c).loc ∧ (retOrZero ch).phys ≤ (retOrZero c).phys := by
-      intro c hc; unfold retOrZero at *; rw [hc]; exact ⟨Nat.le_max_left _ _, Nat.le_refl _⟩
-    split
-    · rename_i heq
-      have : ∀ c : Chan, c.ret = (loadLEO ch).2.ret → (retOrZero ch).loc ≤ (retOrZero c).loc ∧ (retOrZero ch).phys ≤ (retOrZero c).phys := by
-        intro c hc; apply key; rw [hc, heq]
-      cases hl : (loadLEO ch).2.leoC with
-      | none => simp only; exact this _ rfl
-      | some l => simp only; split <;> exact this _ rfl
-    · cases hl : (loadLEO ch).2.leoC with
-      | none => simp only [hl]; exact key _ rfl
-      | some l => simp only [hl]; split <;> exact key _ rfl
+    rw [this]
+    exact ⟨Nat.le_max_left _ _, Nat.le_refl _⟩
+
+example : (retOrZero (adopt { ret := some ⟨5, 3, 9⟩ } 2).1) = ⟨5, 3, 9⟩ := by decide
+
+theorem trimPlan_phys_ge (rows : List Row) (sp through mm mb : Nat) : sp ≤ (trimPlan rows sp through mm mb).phys := by
+  unfold trimPlan
+  dsimp only
+  split
+  · rename_i hc; omega
+  · split
+    · rename_i hc; omega
+    · exact Nat.le_refl _
 
 /-- **c10_floor_mono** (trim) and **c10_physical_le_logical**: a physical trim
-    never lowers either boundary, never touches the logical one, and leaves
-    `physical ≤ logical ≤ retained max` (it refuses to run past the adopted boundary). -/
+    never lowers either boundary, never touches the logical one, leaves
+    `physical ≤ logical`, and refuses to run past the adopted logical boundary. -/
 theorem c10_trim_boundaries (ch ch' : Chan) (through mm mb : Nat) (o : Nat × Nat × Bool)
     (h : trimNoAdopt ch through mm mb = (ch', .ok o)) :
     (retOrZero ch').loc = (retOrZero ch).loc ∧ (retOrZero ch).phys ≤ (retOrZero ch').phys ∧
     (retOrZero ch').phys ≤ (retOrZero ch').loc ∧ through ≤ (retOrZero ch).loc := by
   unfold trimNoAdopt at h
-  split at h; · simp at h
-  have hret : (loadLEO ch).2.ret = ch.ret := by unfold loadLEO; cases ch.leoC <;> rfl
-  have hz : retOrZero (loadLEO ch).2 = retOrZero ch := by unfold retOrZero; rw [hret]
+  by_cases h0 : through = 0
+  · rw [if_pos h0] at h; simp at h
+  rw [if_neg h0] at h
+  have hz : retOrZero (loadLEO ch).2 = retOrZero ch := by unfold retOrZero; rw [loadLEO_ret]
   dsimp only at h
   rw [hz] at h
-  split at h; · simp at h
-  rename_i hloc
-  split at h; · simp at h
-  rename_i rows hrows
-  dsimp only at h
-  split at h; · simp at h
-  rename_i hvalid
-  simp only [Prod.mk.injEq, Except.ok.injEq] at h
-  obtain ⟨hch, _⟩ := h
-  subst hch
-  unfold retValid at hvalid
-  simp only [retOrZero, Bool.not_eq_true', Bool.not_eq_false, Bool.not_not] at *
-  simp only [Bool.not_eq_eq_eq_not, Bool.not_true, decide_eq_false_iff_not, not_or, not_and, Nat.not_lt] at hvalid
-  refine ⟨trivial, ?_, hvalid.2.1 |> (fun h => by simpa using h), Nat.le_of_not_lt hloc⟩
-  split <;> [skip; split] <;> simp <;> omega
+  by_cases hloc : through > (retOrZero ch).loc
+  · rw [if_pos hloc] at h; simp at h
+  rw [if_neg hloc] at h
+  cases hrd : readForward (loadLEO ch).2.rows ((retOrZero ch).phys + 1) through (if mm > 0 then mm + 1 else 0) mb with
+  | error e => rw [hrd] at h; simp at h
+  | ok rows =>
+    rw [hrd] at h
+    dsimp only at h
+    have hge := trimPlan_phys_ge rows (retOrZero ch).phys through mm mb
+    generalize trimPlan rows (retOrZero ch).phys through mm mb = p at h hge
+    by_cases hv : retValid ⟨(retOrZero ch).loc, p.phys,
+        if (loadLEO ch).1 > (retOrZero ch).max then (loadLEO ch).1 else (retOrZero ch).max⟩ = false
+    · rw [if_pos hv] at h; simp at h
+    · rw [if_neg hv] at h
+      simp only [Prod.mk.injEq, Except.ok.injEq] at h
+      obtain ⟨hch, _⟩ := h
+      subst hch
+      unfold retValid at hv
+      simp only [Bool.not_eq_false, Bool.not_eq_true', decide_eq_false_iff_not, not_or, Nat.not_lt] at hv
+      exact ⟨rfl, hge, hv.2.1, Nat.le_of_not_lt hloc⟩
 
-example : (trimNoAdopt { rows := (List.range 4).map (fun i => mkRow (i + 1) ⟨i + 1, [], [], [1], 1⟩), ret := some ⟨3, 0, 4⟩ } 3 0 0).2
-    = .ok (3, 3, false) := by decide +kernel
+def okTrim : Except Err (Nat × Nat × Bool) → Option (Nat × Nat × Bool)
+  | .ok r => some r
+  | .error _ => none
+
+example : okTrim (trimNoAdopt { rows := (List.range 4).map (fun i => mkRow (i + 1) ⟨i + 1, [], [], [1], 1⟩),
+                                ret := some ⟨3, 0, 4⟩ } 3 0 0).2 = some (3, 3, false) := by decide +kernel
 
 end WK.C10
